@@ -43,7 +43,7 @@ func c17WS(c *engine.Ctx, in []byte, args map[string]string) {
 // as the reference and is never longer than it
 var c17Entities = map[string][]byte{
 	"amp": []byte("&"), "lt": []byte("<"), "gt": []byte(">"), "quot": []byte("\""), "apos": []byte("'"),
-	"nbsp": []byte("&#160;"), "varphi": []byte("&phiv;"), "a": nil,
+	"nbsp": []byte("&#160;"), "varphi": []byte("&phiv;"), "num": []byte("#"), "semi": []byte(";"), "a": nil,
 }
 
 var c17RevMaps = map[string]map[byte][]byte{
@@ -319,7 +319,7 @@ func c17Work(c *engine.Ctx) {
 		})
 	}
 	enum("ws", engine.Atoms(" ", "\t", "\n", "\r", "\f", "a", "b"), c.Pick(8, 9), []map[string]string{nil})
-	entAtoms := engine.Atoms("&", "#", "x", "X", ";", "0", "4", "1", "9", "a", "amp", "lt", "quot", "apos", "nbsp", "&amp;", "&#39;", "&#x41;", "&#0;", "varphi", "3", " ", "5", "m", "p")
+	entAtoms := engine.Atoms("&", "#", "x", "X", ";", "0", "4", "1", "9", "a", "amp", "lt", "quot", "apos", "nbsp", "&amp;", "&#39;", "&#x41;", "&#0;", "varphi", "3", " ", "5", "m", "p", "&#35;", "&#59;", "&#120;", "&#49;", "&num;")
 	revs := []map[string]string{{"rev": "none"}, {"rev": "apos"}, {"rev": "both"}}
 	enum("entity", entAtoms, c.Pick(5, 6), revs)
 	enum("ws+entity", engine.Atoms("&", "#", ";", "3", "2", "9", "a", "amp", "&amp;", "&#32;", "&#10;", "&quot;", " ", "\n", "\t", "\r", "x"), c.Pick(5, 6), revs)
@@ -331,7 +331,7 @@ func c17Work(c *engine.Ctx) {
 			}
 		}
 	}
-	attrAtoms := engine.Atoms("a", " ", "'", "\"", "<", "=", ">", "`", "&", "#", "3", "9", ";", "\t", "/", "é")
+	attrAtoms := engine.Atoms("a", " ", "'", "\"", "<", "=", ">", "`", "&", "#", "3", "9", ";", "\t", "/", "é", "\f", "\n", "\v", "\r")
 	enum("html-attr", attrAtoms, c.Pick(4, 5), hargs)
 	enum("xml-attr", attrAtoms, c.Pick(5, 6), []map[string]string{{"buf": "nil"}, {"buf": "small"}, {"buf": "large"}})
 	enum("cdata", engine.Atoms("a", "<", "&", "]", ">", "l", "t", ";"), c.Pick(7, 8), []map[string]string{{"buf": "nil"}, {"buf": "large"}})
